@@ -5,11 +5,13 @@
 //!   bytes   arbitrary bytes (uniform / ASCII-heavy / NUL- and high-byte-heavy), up to 256 KiB
 //!   soup    random sequences of valid lexemes ("badlex": with invalid lexemes mixed in)
 //!   prog    grammar-derived, syntactically well-formed modules of a given density profile
+//!   prog2   the same with rich literal / string / name pools and every flag on every kind of declaration
 //!   deep    well-formed modules with one deeply nested construct
 //!   mut     a corpus file with byte/chunk level mutations
 //!   corpus  a corpus file as it is
 //!   toks    an explicit token list in a context (TLC-emitted)
 //!   src     explicit text, hex: explicit bytes
+//!   cell    a boundary cell emitted by TLC (spec/MC_DeltaBuffersEdge.tla), rendered by edge.rs
 
 use pvh::rng::Rng;
 use serde_json::Value;
@@ -118,11 +120,15 @@ pub fn context(name: &str) -> (&'static str, &'static str) {
         "member" => ("struct S { ", " }"),
         "cond" => ("fn f ( ) { if ", " { } }"),
         "pubbody" => ("pub fn f ( ) { ", " } fn g ( ) ;"),
+        "aftererr" => ("fn ( ; fn g ( ) { ", " }"),
+        "afterpub" => ("pub fn f ( ) { } ", ""),
+        "eofexpr" => ("fn f ( ) { x = ", ""),
+        "pubconst" => ("fn g ( ) { } pub const c : i32 = ", " ; fn h ( ) ;"),
         _ => ("", ""),
     }
 }
 
-pub const CONTEXTS: &[&str] = &["top", "body", "stmt", "type", "param", "member", "cond", "pubbody"];
+pub const CONTEXTS: &[&str] = &["top", "body", "stmt", "type", "param", "member", "cond", "pubbody", "aftererr", "afterpub", "eofexpr", "pubconst"];
 
 // ---------------------------------------------------------------------------------------------
 // lexeme pools
@@ -283,8 +289,21 @@ pub const PROFILES: &[(&str, Profile)] = &[
     ("statements", Profile { ident_pct: 40, chain: (1, 2), list: (0, 2), stmts: (10, 200), depth: 2, decls: [8, 0, 0, 0, 0, 0], short: true, style: 1 }),
 ];
 
+/// prog2 (dimension audit): literals, strings and names that the first family never drew
+const RICH_LITS: &[&str] = &[
+    "340282366920938463463374607431768211455", "0xFFFFFFFFFFFFFFFFFFFFFFFFFFFFFFFF", "170141183460469231731687303715884105728",
+    "18446744073709551616", "65536", "255", "256", "0x0", "0b0", "1_0_0", "255u8", "127i8", "65535u16",
+    "340282366920938463463374607431768211455u128", "0usize", "'<'", "'&'", "'\"'", "'\\''", "'\\\\'", "'\\x7F'", "'\\0'", "'>'", "' '",
+];
+const RICH_STRS: &[&str] = &[
+    "\"\"", "\"a<b&c>d\"", "\"q\\\"q\"", "\"it's\"", "\"\u{e9}\"", "\"\u{20ac}uro\"", "\"caf\u{e9}\"", "\"\u{65e5}\u{672c}\"", "\"\u{1F600}\"",
+    "\"tab\\there\"", "\"\\u{20ac}\\0\\x41\"", "\"</List>\"", "\"&amp;\"", "\"back\\\\slash\"", "\"]]>\"",
+];
+
 struct Pg<'a> {
     rng: &'a mut Rng,
+    /// draw from the rich pools as well (family prog2 only: the stream of `prog` stays as it was)
+    rich: bool,
     p: Profile,
     out: Vec<String>,
     names: usize,
@@ -299,6 +318,11 @@ impl<'a> Pg<'a> {
         self.out.push(s.to_string());
     }
     fn ident(&mut self) -> String {
+        if self.rich && self.rng.chance(2) {
+            // names around the 2^8 boundary of a length counter
+            let n = *self.rng.pick(&[255usize, 256, 257, 300]);
+            return "n".repeat(n);
+        }
         if self.p.short {
             const N: &[&str] = &["x", "y", "z", "a", "b", "i", "n", "p"];
             self.rng.pick(N).to_string()
@@ -363,6 +387,9 @@ impl<'a> Pg<'a> {
                     self.t("]");
                 }
             }
+        } else if self.rich && self.rng.chance(40) {
+            let l = self.rng.pick(RICH_LITS).to_string();
+            self.t(&l);
         } else {
             const L: &[&str] = &["0", "1", "7", "42", "0xFF", "0b101", "200u8", "1_000i64", "true", "false", "'a'", "'\\n'"];
             let l = self.rng.pick(L).to_string();
@@ -406,6 +433,13 @@ impl<'a> Pg<'a> {
                     }
                 }
                 self.t("}");
+            }
+            6 if self.rich => {
+                let n = 1 + if self.rng.chance(30) { self.rng.below(3) } else { 0 };
+                for _ in 0..n {
+                    let l = self.rng.pick(RICH_STRS).to_string();
+                    self.t(&l);
+                }
             }
             6 => {
                 self.t("\"text\"");
@@ -659,6 +693,9 @@ impl<'a> Pg<'a> {
                 }
             }
             2 => {
+                if self.rich && self.rng.chance(25) {
+                    self.t("extern");
+                }
                 self.t("const");
                 let c = self.fresh("C");
                 self.t(&c);
@@ -669,6 +706,9 @@ impl<'a> Pg<'a> {
                 self.t(";");
             }
             3 => {
+                if self.rich && self.rng.chance(25) {
+                    self.t("extern");
+                }
                 self.t("struct");
                 let s = self.fresh("S");
                 self.t(&s);
@@ -679,6 +719,9 @@ impl<'a> Pg<'a> {
                 }
             }
             4 => {
+                if self.rich && self.rng.chance(25) {
+                    self.t("extern");
+                }
                 let w = *self.rng.pick(&["word8", "word16", "word32", "word64", "word128"]);
                 self.t(w);
                 let s = self.fresh("W");
@@ -694,9 +737,26 @@ impl<'a> Pg<'a> {
     }
 }
 
+/// two more profiles for prog2: literal / string heavy expressions, and declarations of every kind with every flag
+const PROFILES2: &[(&str, Profile)] = &[
+    ("literals", Profile { ident_pct: 10, chain: (1, 3), list: (1, 6), stmts: (0, 6), depth: 3, decls: [4, 1, 5, 1, 1, 1], short: true, style: 0 }),
+    ("flags", Profile { ident_pct: 30, chain: (1, 1), list: (0, 3), stmts: (0, 2), depth: 2, decls: [3, 4, 4, 4, 3, 2], short: true, style: 1 }),
+];
+
 pub fn gen_prog(seed: u64, i: usize) -> Input {
-    let mut rng = Rng::new(seed, 0x9806_0000 + i as u64);
-    let (_, mut p) = PROFILES[i % PROFILES.len()];
+    gen_prog_with(seed, i, false)
+}
+
+/// The well-formed programs of `prog` with the rich pools: boundary literals, character literals and strings that need
+/// escaping in a dump, multi-byte characters at both ends of a string, composite strings, names of 255..300 bytes,
+/// `extern` on constants / structures / words.
+pub fn gen_prog2(seed: u64, i: usize) -> Input {
+    gen_prog_with(seed, i, true)
+}
+
+fn gen_prog_with(seed: u64, i: usize, rich: bool) -> Input {
+    let mut rng = Rng::new(seed, if rich { 0x9B06_0000 } else { 0x9806_0000 } + i as u64);
+    let (_, mut p) = if rich && i % 10 < 4 { PROFILES2[i % PROFILES2.len()] } else { PROFILES[i % PROFILES.len()] };
     if rng.chance(25) {
         p.style = rng.below(3);
     }
@@ -709,7 +769,7 @@ pub fn gen_prog(seed: u64, i: usize) -> Input {
     loop {
         let decl = {
             let room = (MAX_LEN - 16).saturating_sub(approx) / (sep + 3);
-            let mut g = Pg { rng: &mut rng, p, out: Vec::new(), names, budget: (target / 3).clamp(8, room.max(8)) };
+            let mut g = Pg { rng: &mut rng, rich, p, out: Vec::new(), names, budget: (target / 3).clamp(8, room.max(8)) };
             g.decl();
             names = g.names;
             g.out
@@ -995,6 +1055,7 @@ pub fn resolve(case: &Value, corpus: &[String]) -> Input {
         "soup" => gen_soup(seed, i, false),
         "badlex" => gen_soup(seed, i, true),
         "prog" => gen_prog(seed, i),
+        "prog2" => gen_prog2(seed, i),
         "deep" => gen_deep(seed, i),
         "mut" => gen_mut(seed, i, corpus),
         "corpus" => {
@@ -1039,6 +1100,12 @@ pub fn resolve(case: &Value, corpus: &[String]) -> Input {
             Input { bytes: s.into_bytes(), facts: Facts { wf, badlex, ntoks: 0 } }
         }
         "hex" => Input { bytes: unhex(case["hex"].as_str().unwrap_or("")), facts: Facts::default() },
+        "cell" => {
+            // a boundary cell of spec/MC_DeltaBuffersEdge.tla; what the rule knows about it travels with the descriptor
+            let badlex = case["badlex"].as_bool().unwrap_or(false);
+            let wf = case["wf"].as_bool().unwrap_or(false);
+            Input { bytes: crate::edge::render(&case["cell"]), facts: Facts { wf, badlex, ntoks: 0 } }
+        }
         _ => {
             let wf = case["wf"].as_bool().unwrap_or(false);
             let badlex = case["badlex"].as_bool().unwrap_or(false);
